@@ -72,20 +72,20 @@ def prepare(rep: Report, ctx: Ctx, mod):
                 ctx.broken.extend(failed or ["lake build"])
                 rep.notes["build_errors"] = errs
         rep.checker_cmd = (f"cd lean && lake build {' '.join(targets)} && "
-                           f"lake env lean RdVerif/Audit/{rep.prop}.lean")
+                           f"lake env lean ../.work/Audit_{rep.prop}.lean   # #print axioms of every theorem listed")
         hits = scan_forbidden([])
         if hits:
             ctx.broken.append("forbidden-construct")
             rep.notes["forbidden"] = hits
         thms = {}
         if ctx.build_ok:
-            ok, thms, log = axiom_audit(rep.prop)
+            ok, thms, log = axiom_audit(rep.prop, list(mod.THEOREMS), list(mod.TARGETS))
             if not ok:
                 ctx.broken.append("axiom-audit")
                 rep.notes["audit_log"] = log[-2000:]
     expected = list(mod.THEOREMS)
     for t in expected:
-        full = [k for k in thms if k == t or k.endswith("." + t)]
+        full = [k for k in thms if k == t]
         if full and set(thms[full[0]]) <= common.ALLOWED_AXIOMS and ctx.build_ok:
             rep.obligations[t] = thms[full[0]]
         else:
